@@ -37,8 +37,8 @@ func init() {
 type fzCase struct {
 	Class  string   `json:"class"`
 	Detail string   `json:"detail,omitempty"`
-	Protos [][]byte `json:"alpn,omitempty"`       // ALPN entries (bytes, base64 in JSON)
-	Raw    []byte   `json:"raw,omitempty"`        // raw bytes written instead of a ClientHello
+	Protos [][]byte `json:"alpn,omitempty"`         // ALPN entries (bytes, base64 in JSON)
+	Raw    []byte   `json:"raw,omitempty"`          // raw bytes written instead of a ClientHello
 	CutW   int      `json:"cut_at_write,omitempty"` // drop the connection instead of the k-th write
 	CutR   int      `json:"cut_after_read,omitempty"`
 	Cert   string   `json:"cert,omitempty"` // self | none
